@@ -45,7 +45,7 @@ static inline uint64_t now_ns() { struct timespec ts; clock_gettime(CLOCK_MONOTO
 enum Op { O_ADDBASE, O_REMOVEBASE, O_EQUALS, O_TOSTRING, O_MASKREQ, O_PARSE_NORM, O_COMPOSE, O_DISSECT, O_ESCAPE, O_FILE, O_IP4, O_PARSE_OWNER, O_PARSE_TEXT, O_NOPS };
 static const char* const OPN[] = {"addBase", "removeBase", "equals", "toString", "maskRequired", "parse+normalize", "composeQuery", "dissectQuery", "escape", "filename", "ip4", "parse+makeOwner", "parse(errorPos=NULL)"};
 
-struct Rec { uint64_t t0, t1; uint16_t op; uint16_t i, j; uint32_t arg; uint64_t result; };
+struct Rec { uint64_t t0, t1; uint16_t op; uint16_t i, j; uint32_t arg; uint64_t result; bool faulted; };
 
 // Read-only arena: every shared input (URI structs, their segment nodes, address blocks and text, the shared strings and
 // query lists) is deep-copied into one mapping that is PROT_READ while the threads run. A store into a shared input -- even
@@ -162,7 +162,7 @@ template <class X> uint64_t do_call(Shared<X>& sh, int op, unsigned i, unsigned 
     return hash_str(out);
 }
 
-template <class X> struct ThreadArg { Shared<X>* sh; int tid; uint64_t seed; int iters; bool customMgr; std::vector<Rec> recs; std::atomic<int>* go; uint64_t ledgerLeak = 0, ledgerBad = 0; };
+template <class X> struct ThreadArg { Shared<X>* sh; int tid; uint64_t seed; int iters; bool customMgr; std::vector<Rec> recs; std::atomic<int>* go; uint64_t ledgerLeak = 0, ledgerBad = 0, faultedCalls = 0, sharedReleased = 0; Str sharedReleasedNote; };
 template <class X> void* thread_main(void* p) {
     ThreadArg<X>* a = (ThreadArg<X>*)p; Rng r(a->seed);
     Ledger led; led.yield_in_cb = true; led.yield_state = a->seed | 1;
@@ -174,7 +174,15 @@ template <class X> void* thread_main(void* p) {
         Rec rec; rec.op = (uint16_t)r.below(O_NOPS); rec.i = (uint16_t)r.below(6); rec.j = (uint16_t)r.below(6);      // few shared objects: maximise sharing
         if (r.chance(1, 4)) { rec.i = (uint16_t)r.below(64); rec.j = (uint16_t)r.below(64); }
         rec.arg = r.below(256);
+        // now and then this thread's own manager refuses a request (once, or from there on) during the call: the failure paths run
+        // concurrently with other threads' calls on the same shared inputs; such a call's result is not compared, but it must not
+        // store into a shared input (read-only arena) nor hand a piece of one to the manager's free function
+        rec.faulted = false;
+        if (mm && r.chance(1, 6)) led.arm((long)r.range(1, 12), r.coin());
         rec.t0 = now_ns(); rec.result = do_call<X>(*a->sh, rec.op, rec.i, rec.j, rec.arg, mm); rec.t1 = now_ns();
+        if (mm) { if (led.failed) { rec.faulted = true; a->faultedCalls++; } led.fail_at = 0; led.fail_from = false; led.failed = 0;
+            if (led.bad_free && g_arena && g_arena->contains(led.last_bad_ptr)) { a->sharedReleased++; if (a->sharedReleasedNote.empty()) a->sharedReleasedNote = fmt("op=%s i=%u j=%u arg=%u: %s", OPN[rec.op], rec.i, rec.j, rec.arg, led.bad_free_note.c_str()); led.bad_free = 0; led.bad_free_note.clear(); }
+            if (rec.faulted && led.outstanding()) led.release_all(); }       // leaks on failure paths are C14's business, not this monitor's
         a->recs.push_back(rec);
         if (r.chance(1, 64)) sched_yield();
     }
@@ -210,7 +218,10 @@ template <class X> void round(Ctx& c, uint64_t idx) {
     for (auto& a : args) {
         if (a->ledgerLeak) c.violation("C13", fmt("threads/%s/leak-in-thread-manager", X::tag()), fmt("%llu block(s)", (unsigned long long)a->ledgerLeak));
         if (a->ledgerBad) c.violation("C13", fmt("threads/%s/bad-free-in-thread-manager", X::tag()), "");
+        if (a->sharedReleased) c.violation("C20", fmt("threads/%s/shared-input-passed-to-free", X::tag()), fmt("%llu time(s); first: %s", (unsigned long long)a->sharedReleased, a->sharedReleasedNote.c_str()));
+        c.count("calls_with_injected_allocation_failure", a->faultedCalls);
         for (auto& rec : a->recs) {
+            if (rec.faulted) continue;
             uint64_t key = ((uint64_t)rec.op << 48) | ((uint64_t)rec.i << 32) | ((uint64_t)rec.j << 16) | rec.arg;
             auto it = expect.find(key);
             if (it == expect.end()) it = expect.emplace(key, do_call<X>(sh, rec.op, rec.i, rec.j, rec.arg, nullptr)).first;
